@@ -4,7 +4,7 @@ import json
 META = {
     "level": "exploration",
     "technique": "IANA IPv4/IPv6 special-purpose registries as TLA+ constant tables; TLC derives the class (MUST_REFUSE / MUST_PASS / DONT_CARE) of every address interval and the boundary probes, checks a transcription of is_global against them (3 canaries), and evaluates the class relation on every observation of the real global_only::Transport::dial (probes, exhaustive run-length-encoded windows around every block boundary, strided and random samples; thorough: the entire IPv4 space)",
-    "text": "The registry tables (25 IPv4 rows, 24 IPv6 rows incl. the 2023-2024 additions, plus 2 rows flagged unverified) live in specs/GlobalIp.tla. TLC computes for every block first-1, first, last, last+1 (159 probes); the driver dials each through the real libp2p_core::transport::global_only::Transport around a recording inner transport, sweeps every address within +-4096 (thorough +-65536) of each probe exhaustively, adds strided IPv4 and structured/random IPv6 samples and (thorough) sweeps all 2^32 IPv4 addresses, run-length encoding the observed result. TLC evaluates each record: an address whose most specific registry block is marked not globally reachable must be refused with MultiaddrNotSupported without reaching the inner transport, an address outside every block must reach it, addresses not starting with an IP are refused. A pure total function over a finite, explicitly partitioned domain: enumeration against the registry is the appropriate level.",
+    "text": "The registry tables (25 IPv4 rows, 24 IPv6 rows incl. the 2023-2024 additions, plus 2 rows flagged unverified) live in specs/GlobalIp.tla. TLC computes for every block first-1, first, last, last+1 (159 probes); the driver dials each through the real libp2p_core::transport::global_only::Transport around a recording inner transport, sweeps every address within +-16384 (thorough +-65536) of each probe exhaustively, adds strided IPv4 and structured/random IPv6 samples and (thorough) sweeps all 2^32 IPv4 addresses, run-length encoding the observed result. TLC evaluates each record: an address whose most specific registry block is marked not globally reachable must be refused with MultiaddrNotSupported without reaching the inner transport, an address outside every block must reach it, addresses not starting with an IP are refused. A pure total function over a finite, explicitly partitioned domain: enumeration against the registry is the appropriate level.",
     "note": "Registry transcribed from memory of the IANA registries (offline sandbox); rows marked reachable or N/A (192.0.0.9, 192.88.99.0/24, 2002::/16, Teredo, ...) are DONT_CARE. Two rows the author could not confirm offline (192.88.99.2/32, 100:0:0:1::/64) are deliberately DONT_CARE.",
     "design_ref": "6/C22",
 }
@@ -13,9 +13,8 @@ META = {
 def run(c):
     c.tlc_mc("GlobalIpCode", "MCGlobalIp.cfg")
     c.tlc_mc("GlobalIpCode", "MCGlobalIp_canary.cfg", expect="CodeMatchesRegistry")
-    if not c.quick:
-        c.tlc_mc("GlobalIpCode", "MCGlobalIp_canary2.cfg", expect="CodeMatchesRegistry")
-        c.tlc_mc("GlobalIpCode", "MCGlobalIp_canary3.cfg", expect="CodeMatchesRegistry")
+    c.tlc_mc("GlobalIpCode", "MCGlobalIp_canary2.cfg", expect="CodeMatchesRegistry")
+    c.tlc_mc("GlobalIpCode", "MCGlobalIp_canary3.cfg", expect="CodeMatchesRegistry")
     drv = c.build("drv-core")
     files = []
     if c.replay:
@@ -28,7 +27,7 @@ def run(c):
         c.drive(drv, ["globalip", "probes", probes, t])
         files.append(t)
         t = c.rundir / "windows.ndjson"
-        c.drive(drv, ["globalip", "windows", probes, c.pick(4096, 65536), c.seed, c.pick(1500, 20000), t])
+        c.drive(drv, ["globalip", "windows", probes, c.pick(16384, 65536), c.seed, c.pick(4000, 20000), t])
         files.append(t)
         if not c.quick:
             t = c.rundir / "all4.ndjson"
